@@ -584,7 +584,8 @@ def Plain.with_ (p : Plain) (v : V) : Outcome Rep :=
   | .rel names rows =>
     match v with
     | .tup as =>
-      if as.map (·.1) = names then .ok (.plain (.rel names (FinSet.ins v rows)))
+      -- a row only if the tuple has the relation's names *and* is routed to the relation's bucket
+      if as.map (·.1) = names ∧ bucketOf v = .rel names then .ok (.plain (.rel names (FinSet.ins v rows)))
       else toUnionSetWithItem (.rel names rows) v
     | _ => toUnionSetWithItem (.rel names rows) v
 
@@ -923,6 +924,10 @@ inductive E where
   | where_ (a : E) (p : P)
   | darrow (a : E) (f : T)
   | pow (a : E)
+  /-- a relation *computed* by natural joins of projections of itself (each column a key, so the joins
+  are lossless): the same value as the literal `{|names| rows}`, held with another physical column
+  order; `src` is the join expression -/
+  | relj (names : List String) (rows : List (List Lit)) (src : String)
   deriving Inhabited
 
 /-! ### source text -/
@@ -966,6 +971,7 @@ def E.src : E → String
   | .where_ a p => "(" ++ a.src ++ " where " ++ p.src ++ ")"
   | .darrow a f => "(" ++ a.src ++ " => " ++ f.src ++ ")"
   | .pow a => "(^(" ++ a.src ++ "))"
+  | .relj _ _ src => src
 
 /-! ### evaluation of terms and predicates (shared by Spec and Impl: closures are not under test) -/
 
@@ -1110,6 +1116,7 @@ def eval : E → Outcome V
       match x with
       | .set xs => .ok (.set (FS.powerset xs))
       | _ => .unspec
+  | .relj names rows _ => .ok (Lit.rel names rows).den
 
 end Spec
 
@@ -1196,6 +1203,7 @@ def eval : E → Outcome IV
       match x with
       | .set r => (powerSet r).map .set
       | _ => .err
+  | .relj names rows _ => .ok (litIV (.rel names rows))
 
 end Impl
 
@@ -1320,7 +1328,6 @@ def flags : E → Flags
     let extra : Flags :=
       match op with
       | .union => { bytesGap := unionBytesGap x y }
-      | .with_ => { relWith := (match Spec.eval b with | .ok v => relWithSugar x v | _ => false) }
       | .symdiff =>
         let d1 := FinSet.diff x y
         let d2 := FinSet.diff y x
@@ -1332,12 +1339,13 @@ def flags : E → Flags
   | .where_ a p => (flags a).or (flagsOfOutcome (Spec.eval (.where_ a p)))
   | .darrow a f => (flags a).or (flagsOfOutcome (Spec.eval (.darrow a f)))
   | .pow a => (flags a).or (flagsOfOutcome (Spec.eval (.pow a)))
+  | .relj names rows _ => flagsOfV (Lit.rel names rows).den
 
-def classOf (e : E) : String :=
-  let f := flags e
+def classOfFlags (f : Flags) : String :=
   if f.super then "KF-superimposed"
   else if f.bytesGap then "KF-bytes-holes"
-  else if f.relWith then "KF-relation-with-sugar"
   else "good"
+
+def classOf (e : E) : String := classOfFlags (flags e)
 
 end Arrai.C01
